@@ -562,3 +562,93 @@ func ResolveLocal(info *types.Info, scope ast.Node, e ast.Expr) ast.Expr {
 	}
 	return e
 }
+
+// FieldWrite is one place where a struct field receives a value: `x.F = v` or the element `F: v` of a composite literal.
+type FieldWrite struct {
+	Field *types.Var
+	Owner string // name of the struct type that declares the field ("" when unknown)
+	Value ast.Expr
+	At    ast.Node // the assignment, or the key-value element
+}
+
+// FieldWrites lists the field writes in body, in both spellings, so that `p.Owner.Name = r.Name` and
+// `p.Owner = Owner{Name: r.Name}` are the same event for a rule.
+func FieldWrites(info *types.Info, body ast.Node) []FieldWrite {
+	var out []FieldWrite
+	ownerOf := func(t types.Type) string {
+		if t == nil {
+			return ""
+		}
+		if pt, ok := t.Underlying().(*types.Pointer); ok {
+			t = pt.Elem()
+		}
+		if nt := core.NamedOf(t); nt != nil {
+			return nt.Obj().Name()
+		}
+		return ""
+	}
+	ast.Inspect(body, func(n ast.Node) bool {
+		switch x := n.(type) {
+		case *ast.AssignStmt:
+			if len(x.Lhs) != len(x.Rhs) {
+				return true
+			}
+			for i, l := range x.Lhs {
+				se, ok := ast.Unparen(l).(*ast.SelectorExpr)
+				if !ok {
+					continue
+				}
+				if f := core.FieldOf(info, se); f != nil {
+					out = append(out, FieldWrite{Field: f, Owner: ownerOf(info.TypeOf(se.X)), Value: x.Rhs[i], At: x})
+				}
+			}
+		case *ast.CompositeLit:
+			owner := ownerOf(info.TypeOf(x))
+			for _, el := range x.Elts {
+				kv, ok := el.(*ast.KeyValueExpr)
+				if !ok {
+					continue
+				}
+				id, ok := kv.Key.(*ast.Ident)
+				if !ok {
+					continue
+				}
+				if f, isVar := info.ObjectOf(id).(*types.Var); isVar && f.IsField() {
+					out = append(out, FieldWrite{Field: f, Owner: owner, Value: kv.Value, At: kv})
+				}
+			}
+		}
+		return true
+	})
+	return out
+}
+
+// UnfoldingEqAtomizer names the atoms of `X == <constant>` / `X != <constant>` by X with every single-assignment local
+// replaced by the expression it names (Unfold), so that `p := x.Pod(); if p.Owner.Name != ""` gives the same atom as
+// `if x.Pod().Owner.Name != ""`. Other conditions keep the walker's default atoms.
+func UnfoldingEqAtomizer(info *types.Info, scope ast.Node) func(w *facts.Walker, e ast.Expr) facts.Formula {
+	return func(w *facts.Walker, e ast.Expr) facts.Formula {
+		be, ok := e.(*ast.BinaryExpr)
+		if !ok || (be.Op != token.EQL && be.Op != token.NEQ) {
+			return nil
+		}
+		x, y := ast.Unparen(be.X), ast.Unparen(be.Y)
+		tv, isConst := info.Types[y]
+		if !isConst || tv.Value == nil {
+			x, y = y, x
+			tv, isConst = info.Types[y]
+			if !isConst || tv.Value == nil {
+				return nil
+			}
+		}
+		u := Unfold(info, scope, x)
+		if u == core.ExprStr(x) {
+			return nil
+		}
+		at := facts.Formula(facts.Atom("eq:" + u + "==" + tv.Value.ExactString()))
+		if be.Op == token.NEQ {
+			return facts.MkNot(at)
+		}
+		return at
+	}
+}
